@@ -277,7 +277,12 @@ static void derived_ranges(const PDU& p, const Bytes& w, std::vector<Range>& out
     }
     else if (dynamic_cast<const IPv6*>(&p)) B(4, 2);                                          // RFC 8200: payload length
     else if (dynamic_cast<const Dot3*>(&p)) B(12, 2);                                         // IEEE 802.3 length
-    else if (dynamic_cast<const EAPOL*>(&p)) { B(2, 2); if (dynamic_cast<const RSNEAPOL*>(&p)) B(97, 2); }   // body length; key data length
+    else if (dynamic_cast<const EAPOL*>(&p)) {
+        B(2, 2);                                                                                // IEEE 802.1X packet body length
+        if (dynamic_cast<const RSNEAPOL*>(&p)) B(97, 2);                                       // IEEE 802.11 12.7.2: key data length
+        if (const RC4EAPOL* rc4 = dynamic_cast<const RC4EAPOL*>(&p))                           // IEEE 802.1X-2004 7.6.2: key length = octets of the key
+            if (!rc4->key().empty()) B(5, 2);                                                   //   that follows (when the frame carries one)
+    }
     else if (dynamic_cast<const PPPoE*>(&p)) B(4, 2);                                         // RFC 2516 LENGTH
     else if (dynamic_cast<const IPSecAH*>(&p)) B(1, 1);                                       // RFC 4302 payload length
 }
@@ -541,6 +546,8 @@ struct Case {
     bool enumerated = false;
     bool overflow = false;
     bool inner = false;
+    bool force_variant = true;
+    Bytes payload;
     Val v;
     std::vector<std::string> program;
 };
@@ -600,17 +607,20 @@ static void run_case(Src& s, Ctx& ctx, Case& cs) {
     }
     if (!p) { p.reset(c.make()); if (cs.mode >= 2) cs.mode = 1; }
     if (cs.mode == 1 || cs.mode == 3) {
-        unsigned n = 1 + (unsigned)s.range(0, 7);
-        for (unsigned i = 0; i < n; ++i) {
-            Src sub = s.sub();
+        // storm steps come last in the choice sequence, each one length-prefixed (0..31 bytes)
+        for (unsigned i = 0; i < 10 && s.remaining() > 0; ++i) {
+            Bytes step = s.bytes(s.u8() & 31);
+            if (step.empty()) continue;
+            Src sub(step.data(), step.size());
             verif::SetterCtx sc(sub, "SDT");
             unsigned k = c.rows[sub.pick(c.rows.size())].k;
             if (verif::apply_setter(*p, k, sc) && sc.applied) cs.program.push_back(sc.describe());
         }
     }
     bool cond_forced = false;
-    if (r.spec && r.spec->cond != wirepos::ALWAYS && (cs.enumerated || s.chance(88))) {
-        force_cond(r.spec->cond, *p, s);
+    if (r.spec && r.spec->cond != wirepos::ALWAYS && cs.force_variant) {
+        Src fs(cs.payload.data(), cs.payload.size());
+        force_cond(r.spec->cond, *p, fs);
         cond_forced = true;
         ctx.label("cond-forced");
     }
@@ -618,8 +628,8 @@ static void run_case(Src& s, Ctx& ctx, Case& cs) {
         if (ip->src_addr() == IPv4Address()) { ip->src_addr("10.0.0.1"); ctx.excluded("parentless-ip-source-0.0.0.0"); }
     }
     // next-protocol tags are rewritten from the payload's type; an unrecognised payload keeps them
-    cs.inner = cs.enumerated || r.info.kind == 'T' || s.chance(50);
-    if (cs.inner) { attach_inner(*p, s.bytes((size_t)s.range(0, 3))); ctx.label("with-raw-payload"); }
+    cs.inner = cs.inner || cs.enumerated || r.info.kind == 'T';
+    if (cs.inner) { attach_inner(*p, cs.payload); ctx.label("with-raw-payload"); }
 
     // normalise: serialising writes derived values back into the object
     Bytes ser0, ser_before;
@@ -816,6 +826,9 @@ void prop(Src& s, Ctx& ctx) {
         cs.ri = (unsigned)s.pick(g_classes[cs.ci].rows.size());
         const Row& r = g_classes[cs.ci].rows[cs.ri];
         cs.mode = (int)s.weighted({2, 5, 3, 2});
+        cs.force_variant = s.chance(88);
+        cs.inner = s.chance(50);
+        cs.payload = s.bytes((size_t)s.range(0, 3));
         bool can_overflow = r.fixed() && r.eff_width < r.info.repr_bits && (r.info.vk == VK_SMALL || (r.narrow() && r.info.kind != 'D'));
         cs.overflow = can_overflow && s.chance(18);
         cs.v = cs.overflow ? gen_too_large(s, r) : gen_value(s, r);
